@@ -214,7 +214,11 @@ func DrawSeg(t *rapid.T, n int) Seg {
 
 // DrawRecipe draws a data recipe of total length <= max.
 func DrawRecipe(t *rapid.T, max int) Recipe {
-	total := DrawLen(t, "total", max)
+	return DrawRecipeN(t, DrawLen(t, "total", max))
+}
+
+// DrawRecipeN draws a data recipe of exactly total bytes.
+func DrawRecipeN(t *rapid.T, total int) Recipe {
 	nseg := rapid.IntRange(1, 6).Draw(t, "nseg")
 	var r Recipe
 	remaining := total
